@@ -9,9 +9,9 @@ from ..runner import Part
 
 PROPERTY = 'C17'
 LEVEL = 'exploration'
-RULE = ('keys (chosen so that both values of the top bit of n0inv occur; one with public exponent 3; file names with dots, one pair named like another plus a suffix): k deterministic 2048-bit keys from a seeded Miller-Rabin prime search (written as PKCS#8 PEM) + k fresh keygen() keys, every key written to disk and re-loaded through '
+RULE = ('keys (chosen so that both values of the top bit of n0inv occur; one with public exponent 3; one committed key whose rr = 2^4096 mod n has two leading zero bytes; file names with dots, one pair named like another plus a suffix): k deterministic 2048-bit keys from a seeded Miller-Rabin prime search (written as PKCS#8 PEM) + k fresh keygen() keys, every key written to disk and re-loaded through '
         'write_public_keyfile / the signer constructors; tokens: all-zero, all-0xff, the 20 single-byte-set and 160 single-bit-set tokens, tokens with 1..19 leading zero bytes, seeded random ones, and per key two tokens whose correct signature starts with a zero byte (found with the reference computation) '
-        'ones (~230 shapes); signers: CryptographySigner, PycryptodomeAuthSigner, PythonRSASigner; a history in which the key pair at one path is regenerated and re-loaded three times in one process; oracle: pure-integer RSA check s^e mod n == 00 01 FF..FF 00 || DER(SHA-1 DigestInfo) || token, '
+        'ones (~230 shapes); signers: CryptographySigner, PycryptodomeAuthSigner, PythonRSASigner; two threads signing concurrently (all schedules with <=1 preemption at line granularity inside the signer modules; each signature equals the sequential one); a history in which the key pair at one path is regenerated and re-loaded three times in one process; oracle: pure-integer RSA check s^e mod n == 00 01 FF..FF 00 || DER(SHA-1 DigestInfo) || token, '
         'cryptography\'s verifier with Prehashed(SHA1), equality of the three signers\' outputs (PKCS#1 v1.5 is deterministic), and an independent decoder of the 524-byte Android RSAPublicKey '
         '(words, n0inv*n == -1 mod 2^32, little-endian modulus, rr == 2^4096 mod n, exponent, trailing " user@host"); non-trivial = every (key, signer, token); distinct likewise')
 ASSUMPTIONS = ['RSA correctness over all keys is not a finite-state question: decided for the enumerated keys x token shapes only',
@@ -245,6 +245,89 @@ def run_regen(params, ch):
     return {'outcome': (params['signer'], len(viol)), 'viol': viol, 'nontrivial': (params['signer'], params['order']), 'sample': dict(params, generations=3), 'trans': 9}
 
 
+def auth_codes():
+    """Code objects of every Python function of the three signer modules and of the rsa.pkcs1 functions the pure-Python signer
+    runs through: the scheduler may switch threads before each of their lines."""
+    import importlib
+    import types
+    codes = []
+
+    def add(obj):
+        for v in list(vars(obj).values()):
+            f = getattr(v, '__func__', v)
+            if isinstance(f, types.FunctionType):
+                codes.append(f.__code__)
+    for name in ('adb_shell.auth.sign_pythonrsa', 'adb_shell.auth.sign_cryptography', 'adb_shell.auth.sign_pycryptodome'):
+        try:
+            m = importlib.import_module(name)
+        except ImportError:
+            continue
+        add(m)
+        for v in list(vars(m).values()):
+            if isinstance(v, type) and v.__module__ == name:
+                add(v)
+    try:
+        from rsa import pkcs1
+        for fn in ('compute_hash', 'sign_hash', 'sign', '_pad_for_signing'):
+            if hasattr(pkcs1, fn):
+                codes.append(getattr(pkcs1, fn).__code__)
+    except ImportError:
+        pass
+    return codes
+
+
+_WARM = set()
+
+
+def run_concurrent(params, ch):
+    """Two threads sign different tokens at the same time (one shared signer object, or two signers of different keys): every
+    schedule with <=k preemptions at line granularity inside the signer modules; each signature must equal the one produced alone."""
+    from ..sched import Scheduler
+    if 'keys_pem' in params:
+        base = os.path.join(init_tmp(), 'replay-keys')
+        os.makedirs(base, exist_ok=True)
+        paths = []
+        for i, (pem, pub) in enumerate(params['keys_pem']):
+            pth = os.path.join(base, 'conc%d' % i)
+            open(pth, 'wb').write(pem)
+            open(pth + '.pub', 'wb').write(pub)
+            paths.append(pth)
+        params = dict(params, keys=paths)
+    kind = params['signer']
+    if kind not in _WARM:
+        _WARM.add(kind)
+        from ..chooser import FixedChooser
+        run_concurrent(params, FixedChooser())
+    paths = params['keys']
+    signers = [make_signer(kind, paths[0])]
+    signers.append(signers[0] if params['shared'] else make_signer(kind, paths[1]))
+    toks = [bytes(range(20)), bytes(range(100, 120))]
+    alone = [bytes(signers[i].Sign(toks[i])) for i in (0, 1)]
+    sc = Scheduler(ch, max_steps=4000, trace_codes=auth_codes())
+    out = [None, None]
+
+    def body(i):
+        def f():
+            out[i] = bytes(signers[i].Sign(toks[i]))
+        return f
+    sc.spawn(body(0), 'sign0')
+    sc.spawn(body(1), 'sign1')
+    sc.run()
+    viol = []
+    if sc.verdict:
+        viol.append({'msg': 'scheduler verdict: %s' % sc.verdict})
+    for i in (0, 1):
+        if out[i] != alone[i]:
+            what = 'the signature of the OTHER thread\'s token' if out[i] == alone[1 - i] else 'a signature that is not the one it produces alone'
+            viol.append({'msg': '%s: thread %d signing concurrently (%s) returned %s' % (kind, i, 'one shared signer' if params['shared'] else 'two signers, two keys', what)})
+    if viol and 'keys_pem' not in params:
+        rp = dict(params, keys_pem=[[open(k, 'rb').read(), open(k + '.pub', 'rb').read()] for k in paths])
+        for v in viol:
+            v['replay_params'] = rp
+    return {'outcome': (kind, params['shared'], out[0] == alone[0], out[1] == alone[1]), 'viol': viol, 'states': sc.states, 'trans': sc.steps,
+            'nontrivial': (kind, params['shared'], tuple(ch.choices)), 'sample': dict({k: v for k, v in params.items() if k != 'keys'}, scheduling_points=sc.steps, preemptions=sc.preemptions)}
+
+
 def parts(tier):
     common.import_repo()
     base = os.path.join(init_tmp(), 'keys')
@@ -258,6 +341,16 @@ def parts(tier):
     p3 = os.path.join(base, 'exp3.key')            # public exponent 3 (adbd accepts 3 and 65537); a dotted file name
     seeded_key(1000, p3, e=3)
     keys.append(p3)
+    # a committed key whose rr = 2^4096 mod n needs only 2029 bits (about one key in 65536): the rr field of the blob has leading zero
+    # bytes that must sit at the most significant (last, little-endian) end
+    fx = os.path.join(os.path.dirname(os.path.dirname(os.path.abspath(__file__))), 'fixtures', 'short_rr.pem')
+    if os.path.exists(fx):
+        import shutil
+        from adb_shell.auth.keygen import write_public_keyfile
+        ps = os.path.join(base, 'short-rr')
+        shutil.copy(fx, ps)
+        write_public_keyfile(ps, ps + '.pub')
+        keys.append(ps)
     from adb_shell.auth.keygen import keygen
 
     def top_bit(path):
@@ -287,6 +380,10 @@ def parts(tier):
     out = [Part('signatures', sc, run_sign, what='%d keys x 3 signers x %d token shapes' % (len(keys), nt), bound='%d signatures' % (len(keys) * 3 * nt), chunk=1)]
     out.append(Part('regenerate-same-path', [{'signer': s, 'order': o} for s in SIGNERS for o in (0, 1)], run_regen, what='key pair regenerated at the same path and re-loaded, three generations',
                     bound='3 signers x 2 load orders', min_outcomes=1, chunk=1))
+    kp = 1 if tier == 'quick' else 2
+    out.append(Part('concurrent-signers', [{'signer': s, 'shared': sh, 'keys': [keys[0], keys[1]]} for s in SIGNERS for sh in (True, False)], run_concurrent, {'sched': kp},
+                    what='two threads signing different tokens at once (one shared signer object / two signers of different keys): all schedules at line granularity inside the signer modules',
+                    bound='preemptions <= %d' % kp, min_outcomes=1, chunk=1))
     out.append(Part('public-key-blob', [{'key': p} for p in keys], run_blob, what='Android RSAPublicKey structure of every key, decoded independently', bound='%d keys' % len(keys),
                     min_outcomes=1, chunk=1))
     return out
